@@ -79,6 +79,78 @@ var msgCodecs = func() map[primitive.OpCode]message.Codec {
 
 func headerLen(v primitive.ProtocolVersion) int { return v.FrameHeaderLengthInBytes() }
 
+// otherSources decodes an encoded frame again from (1) a source delivering one byte per Read, (2) a source delivering a few bytes per
+// Read, (3) a *bytes.Buffer that holds the frame twice, back to back, followed by the trailer. Each must give the frame the plain
+// bytes.Reader gave and consume exactly the frame.
+func otherSources(res *lp.Result, rng *lp.Rng, cs compSetting, enc, trailer []byte, want, id string) {
+	all := append(append([]byte{}, enc...), trailer...)
+	for _, n := range []int{1, 2 + rng.Intn(22)} {
+		if n == 1 && len(enc) > 1<<16 {
+			continue
+		}
+		r := bytes.NewReader(all)
+		d, err := cs.codec.DecodeFrame(&chunkedReader{r: r, n: n})
+		res.Count("sources/piecewise")
+		if err != nil {
+			res.Add(lp.Finding{Kind: "violation", What: fmt.Sprintf("encoded frame does not decode from a source delivering %s per Read: %v", map[bool]string{true: "one byte", false: "a few bytes"}[n == 1], err), Input: id + " bytes=" + hxIn(enc)})
+		} else if got := show.Frame(d); got != want || r.Len() != len(trailer) {
+			res.Add(lp.Finding{Kind: "violation", What: "frame decoded from a source delivering a few bytes per Read differs from the frame decoded from a byte slice, or the decoder does not stop at the frame's end",
+				Input: id + " bytes=" + hxIn(enc), Impl: fmt.Sprintf("%d bytes left, %d expected; %s", r.Len(), len(trailer), got), Model: want})
+		}
+	}
+	backing := append(append([]byte{}, enc...), all...)
+	b := bytes.NewBuffer(backing)
+	defer func() {
+		// a decoded frame (and a raw frame) owns its contents: reusing the source buffer afterwards must not change it
+		rb := bytes.NewBuffer(append([]byte{}, enc...))
+		raw, rerr := cs.codec.DecodeRawFrame(rb)
+		var before []byte
+		if rerr == nil {
+			before = append([]byte{}, raw.Body...)
+			under := rb.Bytes()[:0]
+			under = under[:cap(under)]
+			for i := range under {
+				under[i] ^= 0x5a
+			}
+			rb.Reset()
+			rb.Write(bytes.Repeat([]byte{0xee}, len(enc)))
+			if !bytes.Equal(raw.Body, before) {
+				res.Add(lp.Finding{Kind: "violation", What: "body of a decoded raw frame changes when the source buffer it was read from is reused", Input: id + " bytes=" + hxIn(enc)})
+			}
+		}
+	}()
+	var first *frame.Frame
+	defer func() {
+		if first != nil {
+			for i := range backing {
+				backing[i] ^= 0x5a
+			}
+			if got := show.Frame(first); got != want {
+				res.Add(lp.Finding{Kind: "violation", What: "decoded frame changes when the source buffer it was read from is overwritten", Input: id + " bytes=" + hxIn(enc), Impl: got, Model: want})
+			}
+		}
+	}()
+	for k := 0; k < 2; k++ {
+		d, err := cs.codec.DecodeFrame(b)
+		if k == 0 && err == nil {
+			first = d
+		}
+		res.Count("sources/buffer-with-two-frames")
+		left := len(all) * (1 - k)
+		if k == 1 {
+			left = len(trailer)
+		}
+		if err != nil {
+			res.Add(lp.Finding{Kind: "violation", What: fmt.Sprintf("frame %d of two held back to back in one *bytes.Buffer does not decode: %v", k+1, err), Input: id + " bytes=" + hxIn(enc)})
+			return
+		} else if got := show.Frame(d); got != want || b.Len() != left {
+			res.Add(lp.Finding{Kind: "violation", What: fmt.Sprintf("frame %d of two held back to back in one *bytes.Buffer decodes to another frame, or the decoder does not stop at the frame's end", k+1),
+				Input: id + " bytes=" + hxIn(enc), Impl: fmt.Sprintf("%d bytes left, %d expected; %s", b.Len(), left, got), Model: want})
+			return
+		}
+	}
+}
+
 func runFrames(res *lp.Result, prop string) {
 	res.Rule = "generated version-valid frames: every message kind (all ERROR/RESULT/EVENT variants) × 6 versions × {none, LZ4, Snappy} × random " +
 		"optional-field subsets, nil/empty/unset values, boundary string sizes, nested column types, header flags legal for direction " +
@@ -227,6 +299,9 @@ func runFrames(res *lp.Result, prop string) {
 						res.Add(lp.Finding{Kind: "violation", What: fmt.Sprintf("decoder consumed %d bytes of a %d-byte frame", len(all)-rd.Len(), len(enc)),
 							Input: id + " bytes=" + hxIn(enc)})
 					}
+					// the same bytes from other kinds of source (a connection delivers them piecewise; a proxy keeps several frames in one
+					// buffer): the decoder must deliver the same frame and stop exactly at its end, whatever the property under check
+					otherSources(res, rng, cs, enc, trailer, show.Frame(dec), id)
 					if prop == "C03" {
 						// back to back over a source that delivers a few bytes per Read: both decoders must stop exactly at the frame's end
 						two := append(append([]byte{}, enc...), enc...)
